@@ -140,6 +140,20 @@ CORPUS = {
  0))
 (check-sat)
 ''',
+    # names a mutator would derive are taken by functions WITH arguments
+    # (and by a defined function): declared all the same
+    'names-fun': '''(declare-fun _v ((_ BitVec 4)) Bool)
+(declare-fun __w (Int) (_ BitVec 2))
+(declare-const v (_ BitVec 8))
+(declare-const w (_ BitVec 8))
+(declare-fun s_prefix (Int) String)
+(define-fun s_suffix ((i Int)) String "z")
+(declare-const s String)
+(assert (str.contains s "q"))
+(assert (_v ((_ extract 3 0) v)))
+(assert (= w (concat (__w 1) ((_ extract 5 0) w))))
+(assert (= (s_prefix 1) (s_suffix 2)))
+''',
     'names': '''(declare-const x1__fresh Int)
 (declare-const __v (_ BitVec 2))
 (declare-const _v (_ BitVec 4))
